@@ -333,6 +333,7 @@ func (cl *CachedLocation) get(ctx *Context, sys *System, name string, checkExist
 		Log(DEBUG, ctx, "CachedLocation.Get", "name", name, "opening", false)
 		ctx.SetLoc(loc)
 	}
+	failed := nil == cl.Location
 	cl.Unlock()
 
 	// An entry whose load has failed is removed from the cache (so
@@ -340,7 +341,7 @@ func (cl *CachedLocation) get(ctx *Context, sys *System, name string, checkExist
 	// releases it: see expire.  (Removing it here, by name, could hit
 	// the entry of a request that has replaced ours meanwhile, and the
 	// Release of this request would then be counted against that entry.)
-	if nil == cl.Location {
+	if failed {
 		VerifYield("CachedLocation.get.failed")
 	}
 
